@@ -97,6 +97,11 @@ func (c *Collection) StartDCPFeed(
 	}
 	feed.events.init()
 
+	// Backfill and registration happen under feedMutex, i.e. atomically with respect to every write's
+	// commit + event posting: a mutation is either in the backfill or delivered live, never neither or both.
+	c.bucket.feedMutex.Lock()
+	defer c.bucket.feedMutex.Unlock()
+
 	if args.Backfill != sgbucket.FeedNoBackfill {
 		startCas := args.Backfill
 		if args.Backfill == sgbucket.FeedResume {
